@@ -26,6 +26,91 @@ impl Read for Counting<'_> {
     }
 }
 
+/// How the harness reader answers `read` calls (the environment's answers, deviation-bounded).
+#[derive(Clone, Copy, Debug, PartialEq, Eq)]
+pub enum Answers {
+    /// Every call is served in full (0 deviations; what a byte slice does).
+    Full,
+    /// Every call returns at most `k` bytes ("every call short").
+    Chunk(usize),
+    /// Exactly one short read: the stream is `b[..i].chain(b[i..])`, no call crosses position `i`.
+    SplitAt(usize),
+    /// One `ErrorKind::Interrupted` the first time a call arrives at position `i`.
+    InterruptAt(usize),
+}
+
+impl Answers {
+    pub fn name(&self) -> String {
+        match self {
+            Answers::Full => "full".into(),
+            Answers::Chunk(k) => format!("chunk:{k}"),
+            Answers::SplitAt(i) => format!("split:{i}"),
+            Answers::InterruptAt(i) => format!("intr:{i}"),
+        }
+    }
+    pub fn parse(s: &str) -> Option<Answers> {
+        let (a, b) = s.split_once(':').unwrap_or((s, "0"));
+        let n: usize = b.parse().ok()?;
+        match a {
+            "full" => Some(Answers::Full),
+            "chunk" if n > 0 => Some(Answers::Chunk(n)),
+            "split" => Some(Answers::SplitAt(n)),
+            "intr" => Some(Answers::InterruptAt(n)),
+            _ => None,
+        }
+    }
+}
+
+pub struct Scripted<'a> {
+    pub b: &'a [u8],
+    pub pos: usize,
+    pub answers: Answers,
+    pub fired: bool,
+    /// Number of calls that returned fewer bytes than requested although more were available.
+    pub short_reads: usize,
+}
+
+impl<'a> Scripted<'a> {
+    pub fn new(b: &'a [u8], answers: Answers) -> Self {
+        Scripted { b, pos: 0, answers, fired: false, short_reads: 0 }
+    }
+}
+
+impl Read for Scripted<'_> {
+    fn read(&mut self, buf: &mut [u8]) -> std::io::Result<usize> {
+        let avail = self.b.len() - self.pos;
+        let mut n = buf.len().min(avail);
+        match self.answers {
+            Answers::Full => {}
+            Answers::Chunk(k) => n = n.min(k),
+            Answers::SplitAt(i) => {
+                if self.pos < i {
+                    n = n.min(i - self.pos);
+                }
+            }
+            Answers::InterruptAt(i) => {
+                if self.pos == i && !self.fired && !buf.is_empty() {
+                    self.fired = true;
+                    return Err(std::io::Error::new(std::io::ErrorKind::Interrupted, "scripted interruption"));
+                }
+            }
+        }
+        if n < buf.len().min(avail) {
+            self.short_reads += 1;
+        }
+        buf[..n].copy_from_slice(&self.b[self.pos..self.pos + n]);
+        self.pos += n;
+        Ok(n)
+    }
+}
+
+/// `Transaction::read` on `b` delivered according to `answers`.
+pub fn read_tx_scripted(b: &[u8], ext_branch: BranchId, answers: Answers) -> (std::io::Result<Transaction>, usize, usize) {
+    let mut r = Scripted::new(b, answers);
+    let res = Transaction::read(&mut r, ext_branch);
+    (res, r.pos, r.short_reads)
+}
+
 pub fn script(bytes: &[u8]) -> Script {
     let mut s = Script::default();
     s.0 .0 = bytes.to_vec();
